@@ -124,9 +124,33 @@ def _inline_return_temps(fn):
     return n_done
 
 
+def _normalise_negated_ifs(fn):
+    """`if not X: A else: B` (else not an elif chain) is rewritten to `if X: B else: A`; double negations are stripped.
+    Behaviour-preserving; makes branch inversion a non-event for the rules."""
+    k = 0
+    for n in ast.walk(fn):
+        if isinstance(n, (ast.If, ast.While, ast.IfExp)):
+            while isinstance(n.test, ast.UnaryOp) and isinstance(n.test.op, ast.Not) and isinstance(n.test.operand, ast.UnaryOp) \
+                    and isinstance(n.test.operand.op, ast.Not):
+                n.test = n.test.operand.operand
+                k += 1
+        if isinstance(n, ast.If) and n.orelse and not (len(n.orelse) == 1 and isinstance(n.orelse[0], ast.If)) \
+                and isinstance(n.test, ast.UnaryOp) and isinstance(n.test.op, ast.Not):
+            n.test = n.test.operand
+            n.body, n.orelse = n.orelse, n.body
+            k += 1
+    return k
+
+
 def canonicalise(repo):
     """mutates the function ASTs of `repo` in place; returns the list of renames performed"""
     done = []
+    for m in repo.modules.values():
+        for fn in ast.walk(m.tree):
+            if isinstance(fn, (ast.FunctionDef, ast.AsyncFunctionDef)):
+                k = _normalise_negated_ifs(fn)
+                if k:
+                    done.append((m.name, fn.name, "<negated if/else normalised>", k))
     for m in repo.modules.values():
         for st in m.tree.body:
             fns = [st] if isinstance(st, (ast.FunctionDef, ast.AsyncFunctionDef)) else \
